@@ -363,6 +363,8 @@ def itoa(z):
 
 def shown_num_from_text(text, letters, st):
     """canonical value of a number literal as the parser reads it (non arbitrary_precision)"""
+    if not NUM_RE.match(text):
+        return 'NOT-A-NUMBER-TEXT:' + hx(text)      # the float printer's text is no JSON number (reported by check_float_texts; the image then differs from every output)
     if re.match(rb'^-?[0-9]+$', text):
         z = int(text)
         if text[0:1] != b'-' and z <= 2**64 - 1:
